@@ -96,7 +96,7 @@ pub fn run_plan(idx: u64, seed: u64, plan: &Plan, tweak: impl FnOnce(&mut RunCfg
 }
 
 fn honest_profile() -> Profile {
-    Profile { tr_steps: (0, 40), stateless: 500, big_payloads: 25, query: 100, ..Profile::default() }
+    Profile { tr_steps: (0, 40), stateless: 500, big_payloads: 25, query: 100, wild_buffers: true, ..Profile::default() }
 }
 
 // ------------------------------------------------------------------------------------ scenarios
@@ -150,6 +150,7 @@ pub fn sc_transport_auth(idx: u64, seed: u64, _t: bool) -> RunOut {
             tr_garbage: 50,
             tr_hist: 150,
             tr_nonce_explicit: 80,
+            tr_setsend: 30,
             tr_misuse: 30,
             stateless: 400,
             epilogue: true,
@@ -459,7 +460,7 @@ pub fn sc_nonce(idx: u64, seed: u64, _t: bool) -> RunOut {
             tr_rekey_sync: 30,
             stateless: 300,
             query: 50,
-            epilogue: false,
+            epilogue: true,
             ..Profile::default()
         },
         mode: "plain",
@@ -658,6 +659,7 @@ pub fn sc_stateless(idx: u64, seed: u64, _t: bool) -> RunOut {
             tr_delay: 80,
             stateless: 900,
             big_payloads: 20,
+            wild_buffers: true,
             ..Profile::default()
         },
         mode: "plain",
@@ -957,6 +959,13 @@ pub fn sc_framing_boundary(idx: u64, seed: u64, _t: bool) -> RunOut {
         let buf = [Buf::Delta(-1), Buf::Exact, Buf::Delta(15), Buf::Delta(16), Buf::Abs(65_535), Buf::Abs(65_551), Buf::Abs(70_000)][buf_choice as usize];
         d.step(Op::Write { node: 0, plen, pseed: 33, buf, nonce: NonceSel::Auto });
         if !d.w.inbox[1].is_empty() {
+            // altered copies of the (near-)maximum-size message first: extended past 65535 or
+            // within it, cut by one byte; with payload buffers around the plaintext length
+            let outs = [Buf::Exact, Buf::Delta(1), Buf::Delta(15), Buf::Delta(16), Buf::Ample];
+            for (k, m) in [Mutation::Extend { by: 1, fill: 0 }, Mutation::Extend { by: 16, fill: 7 }, Mutation::Extend { by: 17, fill: 0 }, Mutation::TruncField { field: 1, delta: 15 }].into_iter().enumerate() {
+                let out = outs[((i as usize) / 7 + k) % outs.len()];
+                d.step(Op::Read { node: 1, src: Src::Pick { k: 0, consume: false }, mutation: m, out, nonce: NonceSel::Auto });
+            }
             d.step(Op::Read { node: 1, src: Src::Next, mutation: Mutation::None, out: Buf::Exact, nonce: NonceSel::Auto });
         }
     })
@@ -987,10 +996,10 @@ macro_rules! scen {
 pub fn check_table() -> Vec<Check> {
     const RULE: &str = "runs are generated by a seeded driver (stratified over 38 patterns x psk class x DH x cipher x hash by run index, everything else PRNG); a run is non-trivial if at least one injected fault fired (for fault-free scenarios: it completed a handshake), and distinct by hash of (configuration stratum, sequence of (phase, call, result) events)";
     vec![
-        Check { id: "C01", level: "exploration", rule: RULE, enumerations: vec![], scens: vec![scen!("interop", sc_interop, 24_000, 600_000, 0x101), scen!("honest", sc_honest, 8_000, 200_000, 0x102)] },
-        Check { id: "C02", level: "exploration", rule: RULE, enumerations: vec![], scens: vec![scen!("honest", sc_honest, 24_000, 600_000, 0x201), scen!("interop", sc_interop, 8_000, 200_000, 0x202), scen!("fail-retry", sc_fail_retry_ledger, 6_000, 100_000, 0x203)] },
+        Check { id: "C01", level: "exploration", rule: RULE, enumerations: vec![], scens: vec![scen!("interop", sc_interop, 24_000, 600_000, 0x101), scen!("honest", sc_honest, 8_000, 200_000, 0x102), scen!("fail-retry", sc_fail_retry_ledger, 6_000, 100_000, 0x103), scen!("framing-boundary", sc_framing_boundary, 3_040, 10_640, 0x104)] },
+        Check { id: "C02", level: "exploration", rule: RULE, enumerations: vec![], scens: vec![scen!("honest", sc_honest, 24_000, 600_000, 0x201), scen!("interop", sc_interop, 8_000, 200_000, 0x202), scen!("fail-retry", sc_fail_retry_ledger, 6_000, 100_000, 0x203), scen!("framing-boundary", sc_framing_boundary, 3_040, 10_640, 0x204)] },
         Check { id: "C03", level: "exploration", rule: RULE, enumerations: vec![], scens: vec![scen!("tamper-hs", sc_tamper_hs, 30_000, 800_000, 0x301), scen!("chaos", sc_chaos, 4_000, 100_000, 0x302)] },
-        Check { id: "C04", level: "exploration", rule: RULE, enumerations: vec![], scens: vec![scen!("transport-auth", sc_transport_auth, 20_000, 500_000, 0x401), scen!("stateless", sc_stateless, 6_000, 100_000, 0x402)] },
+        Check { id: "C04", level: "exploration", rule: RULE, enumerations: vec![], scens: vec![scen!("transport-auth", sc_transport_auth, 20_000, 500_000, 0x401), scen!("stateless", sc_stateless, 6_000, 100_000, 0x402), scen!("framing-boundary", sc_framing_boundary, 3_040, 10_640, 0x403)] },
         Check { id: "C05", level: "exploration", rule: RULE, enumerations: vec![], scens: vec![scen!("transport-sched", sc_transport_sched, 24_000, 600_000, 0x501), scen!("nonce", sc_nonce, 4_000, 100_000, 0x502), scen!("sched-enum", sc_sched_enum, 7_500, 7_500, 0x503)] },
         Check { id: "C06", level: "exploration", rule: RULE, enumerations: vec![], scens: vec![scen!("fail-retry-ledger", sc_fail_retry_ledger, 24_000, 600_000, 0x601), scen!("chaos", sc_chaos, 6_000, 100_000, 0x602), scen!("nonce", sc_nonce, 6_000, 100_000, 0x603)] },
         Check { id: "C07", level: "exploration", rule: RULE, enumerations: vec![], scens: vec![scen!("fail-retry-control", sc_fail_retry_control, 20_000, 500_000, 0x701), scen!("transport-sched", sc_transport_sched, 4_000, 100_000, 0x702)] },
